@@ -55,7 +55,71 @@ def replay_superpose(p):
     return bool(msgs), '; '.join(msgs[:3]) or 'injections superpose in either order'
 
 
-REPLAYS = {'add_signal': inject.replay_add_signal, 'superpose': replay_superpose}
+
+
+def replay_int_data(p):
+    """frames whose data have an integer element type: the injection is either refused (data untouched) or adds exactly
+    the returned array"""
+    import setigen as stg
+    c = p['cfg']
+    msgs = []
+    for dtype in (np.int64, np.int32):
+        D = np.rint(np.array(p['D'], dtype=float)).astype(dtype)
+        fr = stg.Frame.from_data(p['df'], p['dt'], p['fch1'], c['asc'], D.copy())
+        if fr.data.dtype != dtype:
+            return False, f"frame does not keep the integer element type ({fr.data.dtype}); nothing to check"
+        kw = inject.real_callables(c, p)
+        try:
+            sig = fr.add_signal(**kw)
+        except TypeError as e:
+            if not np.array_equal(fr.data, D):
+                msgs.append(f"{dtype.__name__}: injection refused ({type(e).__name__}) but the data changed")
+            continue
+        if not np.allclose(fr.data - D, sig, rtol=1e-9, atol=1e-9 * max(1.0, float(np.max(np.abs(sig))))):
+            ij = np.unravel_index(np.argmax(np.abs(fr.data - D - sig)), sig.shape)
+            msgs.append(f"{dtype.__name__} data: pixel {ij} changed by {(fr.data - D)[ij]!r} but the returned signal is {sig[ij]!r}")
+    return bool(msgs), '; '.join(msgs) or 'integer-typed frames: injection refused or exactly additive'
+
+
+def job_int_data(T, Fc, asc, bound, smear):
+    recs = []
+    c = Cfg(T=T, Fc=Fc, asc=asc, pform='fn', tform='fn', bform=None, ip=False, it=False, if_=False, smear=smear, bound=bound, nt=2, nf=2, ns=2, geom='g1' if bound else None)
+    ex = inject.execute(c, int_data=True)
+    pre, D = ex['pre'], ex['D']
+    conds = []
+    for li, leaf in enumerate(ex['leaves']):
+        name = f"C06:int-data:{c!r}:leaf{li}"
+        conds.append(leaf.cond())
+        if leaf.kind == 'exc':
+            recs.append(q(name + ':noexc', 'sat', detail=repr(leaf.value)))
+            m = inject.nice_model(pre + leaf.pc, ex)
+            if m is not None:
+                recs.append(cex(f"C06:int-data:raise:{type(leaf.value).__name__}", f"add_signal on integer-typed data raises {leaf.value!r}", {**inject.model_payload(c, ex, m), 'fn': 'int_data'}, name=name + ':noexc'))
+            continue
+        fr, sig = leaf.value['fr'], leaf.value['sig']
+        base = pre + leaf.pc + leaf.side
+        if sig is None:
+            dis = [lift(fr.data[idx]) != lift(D[idx]) for idx in np.ndindex(D.shape)]
+            what = 'injection into integer-typed data was refused but the data changed'
+        else:
+            dis = [z3.simplify(lift(fr.data[idx]) - lift(D[idx]) - lift(sig[idx]), som=True) != 0 for idx in np.ndindex(D.shape)]
+            what = 'integer-typed data do not change by exactly the returned signal'
+        r, m = core.check(base + [z3.Or(*dis)], timeout_ms=60000)
+        recs.append(q(name, r, refused=sig is None))
+        if li == 0:
+            recs.append(q(name + ':reachable', core.check(base, timeout_ms=30000)[0], expect='sat'))
+        if r == 'sat':
+            m2 = inject.nice_model(base + [z3.Or(*dis)], ex) or m
+            pl = inject.model_payload(c, ex, m2)
+            pl['fn'] = 'int_data'
+            pl['D'] = [[float(str(m2.eval(z3.Int(f'Dint_{i}_{j}'), model_completion=True))) for j in range(Fc)] for i in range(T)]
+            recs.append(cex(f"C06:int-data:{'refused' if sig is None else 'additive'}", what, pl, name=name))
+    r, _ = core.check(pre + [z3.Not(z3.Or(*conds))] if conds else pre, timeout_ms=30000)
+    recs.append(q(f"C06:int-data:{c!r}:split-complete", r))
+    return recs
+
+
+REPLAYS = {'add_signal': inject.replay_add_signal, 'superpose': replay_superpose, 'int_data': replay_int_data}
 
 
 def configs(T, Fc, asc, smear, tier, geom):
@@ -277,6 +341,7 @@ def main():
         for smear in (False, True):
             for bound in (False, True):
                 jobs.append(('job_superpose', (2, 3, asc, smear, bound, ck.tier)))
+                jobs.append(('job_int_data', (2, 3, asc, bound, smear)))
     ck.run_jobs('props.C06', jobs, timeout_s=1500 if ck.thorough else 600)
     ck.finish()
 
